@@ -1092,9 +1092,23 @@ func (s *State) evalForExpression(fe *ast.ForExpression) object.Object {
 			if log.LogVerbose() {
 				log.LogVf("for %s is object.TRUE, running body", fe.Condition.Value().DebugString())
 			}
-			lastEval = s.evalInternal(fe.Body)
-			if rt := lastEval.Type(); rt == object.RETURN || rt == object.ERROR {
-				return lastEval
+			nextEval := s.evalInternal(fe.Body)
+			switch nextEval.Type() {
+			case object.ERROR:
+				return nextEval
+			case object.RETURN:
+				// break and continue act on this loop, as in the counted and list forms; return bubbles up.
+				r := nextEval.(object.ReturnValue)
+				switch r.ControlType {
+				case token.BREAK:
+					return lastEval
+				case token.CONTINUE:
+					continue
+				default:
+					return r
+				}
+			default:
+				lastEval = nextEval
 			}
 		case object.FALSE, object.NULL:
 			if log.LogVerbose() {
